@@ -17,7 +17,8 @@ TRUSTED_BASE = [
 ]
 LEVEL = ("Coq theorems (Props/C03.v), generic in amount type and instance: a+b, a-b, a/b use the left amount as is and the right operand converted to the left unit (operand order kept), results of + and - carry the left unit, "
          "equal units give exactly the amount type's own operation, and the generated operators of every reference-unit type are these kernels. Re-translated from source on every run. "
-         "Magnitudes are additionally judged on the implementation for ALL ordered unit pairs with exact rationals (testing, supporting). In the binary floating-point configuration the magnitude equations with explicit rounding factors are theorems (ACC_C03_add/sub/ratio in Props/Accuracy.v); in the decimal configuration (Props/AccuracyDec.v) the sum and difference are exact apart from the conversion of the right operand (error <= 5e-19 (|b|+1)|s_u|), and the ratio is within 5e-19 of a / b' (DEC_C03_add/sub/div).")
+         "Magnitudes are additionally judged on the implementation for ALL ordered unit pairs with exact rationals (testing, supporting). In the binary floating-point configuration the magnitude equations with explicit rounding factors are theorems (ACC_C03_add/sub/ratio in Props/Accuracy.v); in the decimal configuration (Props/AccuracyDec.v) the sum and difference are exact apart from the conversion of the right operand (error <= 5e-19 (|b|+1)|s_u|), and the ratio is within 5e-19 of a / b' (DEC_C03_add/sub/div)."
+         " Composed over whole programs (Props/Programs.v, axiom-free): for every amount type with exact arithmetic, any tree of constructions, conversions, sums, differences and scalings by numbers run through the translated kernels carries the statically determined unit and denotes exactly its abstract physical magnitude, and ratio / == / partial ordering of two results are the abstract ratio, equality and order (PROG_refines, PROG_ratio, PROG_eq, PROG_cmp; induction over the program); instantiated with an exact rational amount type on every predefined quantity with a reference unit (PROG_catalogue, PROG_not_vacuous).")
 LEVEL_NOTE = "Trusted: Coq kernel, translator rs2j+j2v, Macro/Inst.v wiring (cross-checked), hand models of binary64/fpdec in the correspondence; no axioms in the structural theorems; the accuracy theorems rest on Flocq and the stdlib real-number axioms."
 ASSUMPTIONS = [
     "Rust evaluates `self.amount() + rhs.equiv_amount(self.unit())` as the translated term (validated by the correspondence run)",
